@@ -24,7 +24,7 @@ use std::time::{Duration, Instant};
 #[derive(Clone, Copy, Debug, PartialEq, Eq, Hash, PartialOrd, Ord)]
 pub enum Phase { Created, OfferMade, RemoteOfferSet, Checking, IceConnected, DtlsHandshaking, Connected, ChannelsOpen, MediaFlowing, Renegotiating }
 #[derive(Clone, Copy, Debug, PartialEq, Eq, Hash, PartialOrd, Ord)]
-pub enum Event { Close, CloseTwice, Drop, PeerCloseNotify, PeerClose, PeerAbort, PeerShutdown, PeerShutdownAck, IceStop, PeerVanish, BlockedSenderClose, BlockedSenderVanish, BlockedSenderAbort, BlockedSenderShutdown, BlockedSenderShutdownAck, BlockedSenderHeartbeat, BlockedSenderCloseNotify, CloseChannelTwice, CloseChannelThenClose }
+pub enum Event { Close, CloseTwice, Drop, PeerCloseNotify, PeerClose, PeerAbort, PeerShutdown, PeerShutdownAck, IceStop, PeerVanish, BlockedSenderClose, BlockedSenderVanish, BlockedSenderAbort, BlockedSenderShutdown, BlockedSenderShutdownAck, BlockedSenderHeartbeat, BlockedSenderCloseNotify, CloseChannelTwice, CloseChannelThenClose, IceFail, PeerVanishIceFail, BadFingerprint }
 
 const PHASES: &[(Phase, &str)] = &[(Phase::Created, "created"), (Phase::OfferMade, "offerMade"), (Phase::RemoteOfferSet, "remoteOfferSet"),
     (Phase::Checking, "checking"), (Phase::IceConnected, "iceConnected"), (Phase::DtlsHandshaking, "dtlsHandshaking"),
@@ -34,14 +34,17 @@ const EVENTS: &[(Event, &str)] = &[(Event::Close, "close"), (Event::CloseTwice, 
     (Event::PeerShutdown, "peerShutdown"), (Event::PeerShutdownAck, "peerShutdownAck"), (Event::IceStop, "iceStop"),
     (Event::PeerVanish, "peerVanish"), (Event::BlockedSenderClose, "blockedSenderClose"),
     (Event::BlockedSenderVanish, "blockedSenderVanish"), (Event::BlockedSenderAbort, "blockedSenderAbort"), (Event::BlockedSenderShutdown, "blockedSenderShutdown"),
-    (Event::BlockedSenderShutdownAck, "blockedSenderShutdownAck"), (Event::BlockedSenderHeartbeat, "blockedSenderHeartbeat"), (Event::BlockedSenderCloseNotify, "blockedSenderCloseNotify"), (Event::CloseChannelTwice, "closeChannelTwice"), (Event::CloseChannelThenClose, "closeChannelThenClose")];
+    (Event::BlockedSenderShutdownAck, "blockedSenderShutdownAck"), (Event::BlockedSenderHeartbeat, "blockedSenderHeartbeat"), (Event::BlockedSenderCloseNotify, "blockedSenderCloseNotify"),
+    (Event::IceFail, "iceFail"), (Event::PeerVanishIceFail, "peerVanishIceFail"), (Event::BadFingerprint, "badFingerprint"), (Event::CloseChannelTwice, "closeChannelTwice"), (Event::CloseChannelThenClose, "closeChannelThenClose")];
 fn phase_name(p: Phase) -> &'static str { PHASES.iter().find(|x| x.0 == p).unwrap().1 }
 fn event_name(e: Event) -> &'static str { EVENTS.iter().find(|x| x.0 == e).unwrap().1 }
 
 #[derive(Clone, Debug, PartialEq, Eq, Hash, PartialOrd, Ord)]
 pub struct Scen { pub mode: Mode, pub phase: Phase, pub events: Vec<Event>, pub audio_only: bool, pub variant: u8 }
-/// `variant`: 0 = full ICE, one media section; 1 = ICE-TCP; 2 = UDP mux; 3 = two non-BUNDLE sections (LegacySip)
-const VARIANTS: [&str; 4] = ["", "-tcp", "-udpmux", "-2sec"];
+/// `variant`: 0 = full ICE, one media section; 1 = ICE-TCP; 2 = UDP mux; 3 = two non-BUNDLE sections (LegacySip);
+/// 4 = (audio-only) a data channel created after the connection is up: registered, but the connection was
+/// negotiated without an application section and never gets an SCTP association
+const VARIANTS: [&str; 5] = ["", "-tcp", "-udpmux", "-2sec", "-latedc"];
 impl Scen {
     pub fn text(&self) -> String {
         format!("{}{}{}:{}:{}", match self.mode { Mode::WebRtc => "webrtc", Mode::Srtp => "srtp", Mode::Rtp => "rtp" }, if self.audio_only { "-audio" } else { "" }, VARIANTS[self.variant as usize],
@@ -67,11 +70,20 @@ impl Scen {
     pub fn valid(&self) -> bool {
         let connected = matches!(self.phase, Phase::Connected | Phase::ChannelsOpen | Phase::MediaFlowing | Phase::Renegotiating);
         if (self.mode != Mode::WebRtc || self.audio_only) && matches!(self.phase, Phase::ChannelsOpen) { return false; }
+        if self.variant == 4 && !(self.mode == Mode::WebRtc && self.audio_only && self.phase == Phase::Connected && self.events.len() == 1) { return false; }
         if self.mode != Mode::WebRtc && matches!(self.phase, Phase::IceConnected | Phase::DtlsHandshaking) { return false; }
         for e in &self.events {
             match e {
+                Event::PeerCloseNotify if self.variant == 4 => {}
                 Event::PeerCloseNotify | Event::PeerAbort | Event::PeerShutdown | Event::PeerShutdownAck => {
                     if self.mode != Mode::WebRtc || !matches!(self.phase, Phase::ChannelsOpen | Phase::MediaFlowing | Phase::Renegotiating) { return false; } }
+                // ICE Failed: forced on the subject's ICE transport (every mode), or produced by its own consent
+                // keepalive when the peer is silent for ice_connection_timeout (WebRTC mode only). Only once
+                // the connection is up: while checks are still running they would overwrite a forced state.
+                Event::IceFail => { if !connected || self.events.len() > 1 { return false; } }
+                Event::PeerVanishIceFail => { if !connected || self.events.len() > 1 || self.mode != Mode::WebRtc { return false; } }
+                // the answer carries a fingerprint that does not match the peer's certificate: the handshake fails
+                Event::BadFingerprint => { if self.phase != Phase::Checking || self.events.len() > 1 || self.mode != Mode::WebRtc || self.variant != 0 { return false; } }
                 Event::BlockedSenderClose | Event::BlockedSenderVanish | Event::BlockedSenderAbort | Event::BlockedSenderShutdown | Event::BlockedSenderShutdownAck | Event::BlockedSenderHeartbeat | Event::BlockedSenderCloseNotify | Event::CloseChannelTwice | Event::CloseChannelThenClose => { if self.mode != Mode::WebRtc || self.audio_only || self.phase != Phase::ChannelsOpen || self.events.len() > 1 { return false; } }
                 // direct modes have no liveness mechanism (ICE consent checks run in WebRTC mode only): a silent peer is by design not an event there
                 Event::PeerVanish | Event::PeerClose => { if !connected || self.events.len() > 1 || self.mode != Mode::WebRtc { return false; } }
@@ -166,8 +178,17 @@ fn blocked_peer_event(ev: Event) -> Option<Event> {
 async fn inject(ev: Event, x: &PeerConnection, y: &PeerConnection) -> Result<(), String> {
     match ev {
         Event::Close => { x.close(); }
-        Event::CloseTwice => { x.close(); let x2 = x.clone(); let h = std::thread::spawn(move || x2.close()); x.close(); let _ = h.join(); }
+        Event::CloseTwice => {
+            // three FIRST closes started together (audit r2-R6): none has run before the others start
+            let b = Arc::new(std::sync::Barrier::new(3));
+            let hs: Vec<_> = (0..2).map(|_| { let (x2, b2) = (x.clone(), b.clone()); std::thread::spawn(move || { b2.wait(); x2.close(); }) }).collect();
+            b.wait(); x.close();
+            for h in hs { let _ = h.join(); }
+        }
         Event::IceStop => { x.ice_transport().stop(); }
+        Event::IceFail => { x.ice_transport().verif_set_state(IceTransportState::Failed); }
+        Event::PeerVanishIceFail => { y.ice_transport().stop(); }
+        Event::BadFingerprint => {}
         Event::PeerCloseNotify => { y.verif_lc_dtls_transport().ok_or("peer has no DTLS transport")?.close(); }
         Event::PeerClose => { y.close(); }
         Event::PeerVanish => { y.ice_transport().stop(); }
@@ -205,11 +226,13 @@ async fn exec_once(sc: &Scen, x_runtime: Option<tokio::runtime::Handle>) -> (Out
     let cfg = sc.cfg();
     let blocked_ev = sc.events.iter().copied().find(|e| is_blocked(*e));
     let hb = blocked_ev == Some(Event::BlockedSenderHeartbeat);
-    let vanish = sc.events.contains(&Event::PeerVanish) || sc.events.contains(&Event::PeerClose) || blocked_ev.is_some();
+    let icefail_ka = sc.events.contains(&Event::PeerVanishIceFail);
+    let vanish = sc.events.contains(&Event::PeerVanish) || sc.events.contains(&Event::PeerClose) || blocked_ev.is_some() || icefail_ka;
     let keep = x_runtime.is_some();
     // heartbeat variant: the SCTP layer must notice the dead peer first (500 ms x 3), not ICE
-    let knobs = Knobs { ice_disconnect_threshold: Some(Duration::from_millis(if hb { 20_000 } else { 1200 })), ice_disconnect_grace: Some(Duration::from_millis(300)),
-        ice_connection_timeout: Some(Duration::from_secs(30)), sctp_max_buffered: if blocked_ev.is_some() { Some(16 * 1024) } else { None },
+    // keepalive-driven ICE failure: the consent timeout (2 s) comes before the disconnect threshold
+    let knobs = Knobs { ice_disconnect_threshold: Some(Duration::from_millis(if hb || icefail_ka { 20_000 } else { 1200 })), ice_disconnect_grace: Some(Duration::from_millis(300)),
+        ice_connection_timeout: Some(Duration::from_secs(if icefail_ka { 2 } else { 30 })), sctp_max_buffered: if blocked_ev.is_some() { Some(16 * 1024) } else { None },
         sctp_heartbeat: if hb { Some((Duration::from_millis(500), 3, 3)) } else { None },
         p_runtime: x_runtime.clone() };
     let mut p = Pair::create(cfg, &knobs);
@@ -251,8 +274,17 @@ async fn exec_once(sc: &Scen, x_runtime: Option<tokio::runtime::Handle>) -> (Out
     let peer_rx = x.subscribe_peer_state();
     let reason_rx = x.subscribe_disconnect_reason();
     let sig_rx = x.subscribe_signaling_state();
-    let chans: Vec<Arc<DataChannel>> = xs.dc.iter().cloned().collect();
+    let mut chans: Vec<Arc<DataChannel>> = xs.dc.iter().cloned().collect();
+    if sc.variant == 4 {
+        match x.create_data_channel("late", None) { Ok(dc) => chans.push(dc), Err(e) => { out.err = Some(format!("setup: late channel: {e}")); } }
+    }
     out.nch = chans.len();
+    // a `PeerConnection::recv()` pending across the event (it clones the handle: not for drop scenarios)
+    let pcrecv_ended = Arc::new(AtomicBool::new(false));
+    if !sc.events.contains(&Event::Drop) && !keep {
+        let (x2, e2) = (x.clone(), pcrecv_ended.clone());
+        tokio::spawn(async move { while x2.recv().await.is_some() {} e2.store(true, Ordering::SeqCst); });
+    }
     let watches: Vec<ChanWatch> = chans.iter().map(watch_channel).collect();
     out.chan_open_before = watches.iter().map(|w| w.was_open).collect();
 
@@ -268,7 +300,7 @@ async fn exec_once(sc: &Scen, x_runtime: Option<tokio::runtime::Handle>) -> (Out
                 let t0 = Instant::now();
                 loop {
                     let hit = match sc.phase {
-                        Phase::Checking => true,
+                        Phase::Checking => x.ice_transport().state() != IceTransportState::New,
                         Phase::IceConnected => matches!(x.ice_transport().state(), IceTransportState::Connected | IceTransportState::Completed),
                         _ => x.verif_lc_dtls_transport().is_some(),
                     };
@@ -286,22 +318,37 @@ async fn exec_once(sc: &Scen, x_runtime: Option<tokio::runtime::Handle>) -> (Out
                 let evs = sc.events.clone(); let y2 = y.clone();
                 let watcher = tokio::spawn(async move {
                     let t0 = Instant::now();
+                    let mut reached = true;
                     loop {
                         let hit = match ph {
-                            Phase::Checking => true,
+                            // "checking" = the answer has been applied far enough for ICE to have been started
+                            // (injecting `ice_transport().stop()` BEFORE `start()` is a different scenario: the later
+                            // `start()` revives a transport whose sockets are gone — not reachable through
+                            // PeerConnection, whose close() also closes signaling)
+                            Phase::Checking => xw.ice_transport().state() != IceTransportState::New,
                             Phase::IceConnected => matches!(xw.ice_transport().state(), IceTransportState::Connected | IceTransportState::Completed),
                             _ => xw.verif_lc_dtls_transport().is_some(),
                         };
                         if hit { break; }
-                        if t0.elapsed() > Duration::from_secs(5) { break; }
+                        if t0.elapsed() > Duration::from_secs(5) { reached = false; break; }
                         tokio::task::yield_now().await;
                     }
                     let pre = snapshot(&xw);
                     for e in evs { let _ = inject(e, &xw, &y2).await; }
-                    pre
+                    (pre, reached)
                 });
+                if sc.events == [Event::BadFingerprint] {
+                    // corrupt the certificate fingerprint the peer announces: the DTLS handshake must fail
+                    if let Some(a) = p.answer.as_mut() {
+                        let flip = |v: &mut Option<String>| { if let Some(t) = v { let last = t.pop().unwrap_or('0'); t.push(if last == '0' { '1' } else { '0' }); } };
+                        for at in a.session.attributes.iter_mut().filter(|at| at.key == "fingerprint") { flip(&mut at.value); }
+                        for m in a.media_sections.iter_mut() { for at in m.attributes.iter_mut().filter(|at| at.key == "fingerprint") { flip(&mut at.value); } }
+                    }
+                }
                 p.deliver_answer().await.ok();
-                if let Ok(pre) = watcher.await { out.pre = pre; }
+                // badFingerprint injects nothing at the phase boundary (the event IS the tampered answer): its start
+                // state is the snapshot taken before the answer was delivered
+                if let Ok((pre, reached)) = watcher.await { if sc.events != [Event::BadFingerprint] { out.pre = pre; } if !reached { out.notes.push("phase-not-reached".into()); } }
             }
             _ => {
                 out.pre = snapshot(&x);
@@ -402,10 +449,12 @@ async fn exec_once(sc: &Scen, x_runtime: Option<tokio::runtime::Handle>) -> (Out
     let c_send = timed(async { x.send_data(id, b"after").await.is_ok() }, lim).await;
     let c_offer = timed(async { x.create_offer().await.is_ok() }, lim).await;
     let c_wfc = timed(async { x.wait_for_connected().await.is_ok() }, lim).await;
+    // PeerConnection::recv(): the reader pending since before the event has returned AND a new call ends too
+    let c_pcrecv = if pcrecv_ended.load(Ordering::SeqCst) { if timed(async { while x.recv().await.is_some() {} true }, lim).await == 'o' { 'o' } else { 'p' } } else { 'p' };
     let c_recv: String = if watches.is_empty() { "-".into() } else { watches.iter().map(|w| if w.ended.load(Ordering::SeqCst) { 'o' } else { 'p' }).collect() };
     // is `inner.sctp_transport` still held after the event? (close_with_reason must `take()` it)
     let held = x.verif_lc_sctp_transport().is_some() as u8;
-    out.calls = format!("{c_send}{c_offer}{c_wfc}/{c_recv}/h{held}/b{}", out.parked);
+    out.calls = format!("{c_send}{c_offer}{c_wfc}{c_pcrecv}/{c_recv}/h{held}/b{}", out.parked);
     if keep { return (out, Some(p)); }
     p.off.pc.close(); p.ans.pc.close();
     (out, None)
@@ -451,8 +500,14 @@ fn oracles(sc: &Scen, o: &Outcome) -> Vec<(String, String)> {
     if o.calls != "-" && terminal {
         let c: Vec<char> = o.calls.chars().collect();
         for (i, name) in ["send_data", "create_offer", "wait_for_connected"].iter().enumerate() {
+            // wait_for_connected keeps waiting across an ICE disconnect by design (the transport may recover;
+            // it ends when ICE gives up: the peerVanishIceFail scenario)
+            if *name == "wait_for_connected" && o.peer == "disconnected" && o.reason == "iceDisconnected" { continue; }
             if c.get(i) == Some(&'p') { f.push((format!("hang:{cls}:{name}-pending-after-terminal"), o.calls.clone())); }
         }
+        // PeerConnection::recv() is an event stream: it must end once the connection is Closed (in Failed /
+        // Disconnected it keeps waiting for events; recorded, not judged)
+        if o.peer == "closed" && c.get(3) == Some(&'p') { f.push((format!("hang:{cls}:pc-recv-pending-after-close"), o.calls.clone())); }
         if app_closed && c.first() == Some(&'o') { f.push((format!("call:{cls}:send_data-ok-after-close"), o.calls.clone())); }
     }
     if let Some(ms) = o.blocked_send_ms {
@@ -473,18 +528,22 @@ fn scenarios(thorough: bool) -> Vec<Scen> {
         }
     } else {
         use Event::*; use Phase::*;
-        for (ph, evs) in [(Created, vec![Close, Drop]), (OfferMade, vec![Close]), (RemoteOfferSet, vec![Close]), (Checking, vec![Close, IceStop, Drop]),
+        for (ph, evs) in [(Created, vec![Close, Drop]), (OfferMade, vec![Close]), (RemoteOfferSet, vec![Close]), (Checking, vec![Close, IceStop, Drop, BadFingerprint]),
             (IceConnected, vec![Close, Drop]), (DtlsHandshaking, vec![Close, IceStop, Drop]), (Connected, vec![Close, PeerClose]),
-            (ChannelsOpen, vec![Close, CloseTwice, Drop, PeerCloseNotify, PeerClose, PeerAbort, PeerShutdown, PeerShutdownAck, IceStop, PeerVanish, BlockedSenderClose, BlockedSenderVanish, BlockedSenderAbort, BlockedSenderShutdown, BlockedSenderShutdownAck, BlockedSenderHeartbeat, BlockedSenderCloseNotify, CloseChannelTwice, CloseChannelThenClose]),
-            (MediaFlowing, vec![Close, PeerAbort]), (Renegotiating, vec![Close, PeerCloseNotify])] {
+            (ChannelsOpen, vec![Close, CloseTwice, Drop, PeerCloseNotify, PeerClose, PeerAbort, PeerShutdown, PeerShutdownAck, IceStop, PeerVanish, BlockedSenderClose, BlockedSenderVanish, BlockedSenderAbort, BlockedSenderShutdown, BlockedSenderShutdownAck, BlockedSenderHeartbeat, BlockedSenderCloseNotify, CloseChannelTwice, CloseChannelThenClose, IceFail, PeerVanishIceFail]),
+            (MediaFlowing, vec![Close, PeerAbort, IceFail]), (Renegotiating, vec![Close, PeerCloseNotify])] {
             for e in evs { v.push(s(Mode::WebRtc, ph, &[e])); }
         }
         for pair in [[Close, PeerCloseNotify], [Close, PeerAbort], [PeerAbort, PeerCloseNotify], [Close, IceStop]] { v.push(s(Mode::WebRtc, ChannelsOpen, &pair)); }
-        for (ph, evs) in [(Created, vec![Close]), (OfferMade, vec![Drop]), (Connected, vec![Close, Drop, IceStop, CloseTwice, PeerVanish]), (MediaFlowing, vec![Close]), (Renegotiating, vec![Close])] {
+        for (ph, evs) in [(Created, vec![Close]), (OfferMade, vec![Drop]), (Connected, vec![Close, Drop, IceStop, CloseTwice, PeerVanish, IceFail]), (MediaFlowing, vec![Close]), (Renegotiating, vec![Close])] {
             for e in evs { v.push(s(Mode::Rtp, ph, &[e])); }
         }
-        for e in [Close, Drop] { v.push(s(Mode::Srtp, Connected, &[e])); }
+        for e in [Close, Drop, IceFail] { v.push(s(Mode::Srtp, Connected, &[e])); }
         v.push(s(Mode::Srtp, RemoteOfferSet, &[IceStop])); v.push(s(Mode::Srtp, RemoteOfferSet, &[Close])); v.push(s(Mode::Rtp, Checking, &[Close]));
+    }
+    // a data channel registered on a connection that has no SCTP association (audit r2-A4)
+    for e in [Event::Close, Event::PeerCloseNotify, Event::PeerVanish, Event::IceFail, Event::IceStop] {
+        v.push(Scen { mode: Mode::WebRtc, phase: Phase::Connected, events: vec![e], audio_only: true, variant: 4 });
     }
     v.retain(|s| s.valid());
     v
@@ -655,19 +714,23 @@ pub fn run(args: &Args) {
             mk(Mode::WebRtc, DtlsHandshaking, Close, true, 0), mk(Mode::WebRtc, Checking, Close, false, 0), mk(Mode::WebRtc, OfferMade, Close, false, 0),
             mk(Mode::WebRtc, ChannelsOpen, IceStop, false, 0), mk(Mode::Rtp, Connected, Close, false, 0), mk(Mode::Rtp, Connected, Drop, false, 0),
             // ICE variants and per-section transports (audit C4)
-            mk(Mode::WebRtc, ChannelsOpen, Close, false, 1), mk(Mode::WebRtc, ChannelsOpen, Close, false, 2), mk(Mode::Rtp, Connected, Close, false, 3)];
-        if args.tier_thorough { l.extend([mk(Mode::WebRtc, Created, Close, false, 0), mk(Mode::WebRtc, Created, Drop, false, 0), mk(Mode::WebRtc, DtlsHandshaking, Drop, false, 0),
+            mk(Mode::WebRtc, ChannelsOpen, Close, false, 1), mk(Mode::WebRtc, ChannelsOpen, Close, false, 2), mk(Mode::Rtp, Connected, Close, false, 3),
+            // close() right after creation, before the connection's task has run (round 3: gathering loop)
+            mk(Mode::WebRtc, Created, Close, false, 0)];
+        if args.tier_thorough { l.extend([mk(Mode::WebRtc, Created, Drop, false, 0), mk(Mode::WebRtc, DtlsHandshaking, Drop, false, 0),
             mk(Mode::WebRtc, ChannelsOpen, CloseTwice, false, 0), mk(Mode::Srtp, Connected, Close, false, 0), mk(Mode::Srtp, Connected, Drop, false, 0),
             mk(Mode::WebRtc, MediaFlowing, Close, false, 0), mk(Mode::WebRtc, Renegotiating, Close, false, 0), mk(Mode::WebRtc, Connected, Close, true, 0),
             mk(Mode::WebRtc, ChannelsOpen, Drop, false, 2), mk(Mode::Rtp, Connected, Drop, false, 3), mk(Mode::Srtp, Connected, Close, false, 3)]); }
-        // lower-layer failures: measured and reported, not alarmed (the application still has to close())
+        // lower-layer ends (no close() by the application): the property owes the release here too (audit r2-C2);
+        // judged exactly like the application-initiated ends
         l.push(mk(Mode::WebRtc, ChannelsOpen, PeerAbort, false, 0)); l.push(mk(Mode::WebRtc, ChannelsOpen, PeerCloseNotify, false, 0));
+        l.push(mk(Mode::WebRtc, ChannelsOpen, IceFail, false, 0));
         l
     };
     let mut leaks = vec![];
     for sc in &leak_list {
         let l = leak_run(sc);
-        let app_ended = sc.events.iter().any(|e| matches!(e, Event::Close | Event::CloseTwice | Event::Drop | Event::IceStop));
+        let app_ended = true;
         leaks.push(serde_json::json!({"scenario": sc.text(), "subject_tasks_alive_after_event_handle_held": l.tasks_x_after_event, "socket_fds_base": l.fds_base,
             "socket_fds_handle_held_peer_closed": l.fds_handle_held, "socket_fds_after_drop": l.fds_after_drop, "peer_state": l.peer, "alarmed": app_ended, "err": l.err}));
         run.count("resource_runs");
@@ -679,7 +742,7 @@ pub fn run(args: &Args) {
         }
     }
     run.notes.insert("resources_measured".into(), serde_json::json!(leaks));
-    run.notes.insert("runtime_facts".into(), serde_json::json!("task / descriptor release is measured per endpoint (the subject runs on its own tokio runtime; RuntimeMetrics::num_alive_tasks polled <= 12 s after the event WHILE the application still holds its handles; /proc/self/fd sockets with the handle held vs after dropping it); lower-layer failure scenarios are measured and listed but not alarmed (resources stay until the application closes); 700 ms call bound, 1.5 s settle; 4 s for peer-vanish with threshold 1.2 s + grace 0.3 s) — not theorems"));
+    run.notes.insert("runtime_facts".into(), serde_json::json!("task / descriptor release is measured per endpoint (the subject runs on its own tokio runtime; RuntimeMetrics::num_alive_tasks polled <= 12 s after the event WHILE the application still holds its handles; /proc/self/fd sockets with the handle held vs after dropping it); lower-layer ends (peer ABORT, peer close_notify, ICE failed) are judged like close() / drop; tasks left on the APPLICATION's runtime (tasks_main_end) are recorded only; 700 ms call bound, 1.5 s settle; 4 s for peer-vanish with threshold 1.2 s + grace 0.3 s) — not theorems"));
     run.exhaustive = args.tier_thorough;
     run.finish();
 }
